@@ -318,7 +318,7 @@ def late_mutation_probe(R, pid, name, da, rng, nt, opname, case=None):
         R.violation(f"{pid}:lazy", f"{name} on a dask-backed cube raises {type(e).__name__}", dict(case or {}, op=name))
         return False
     for a in arrays:
-        a[...] = a[::-1].copy() if a.ndim == 1 and not np.array_equal(a, a[::-1]) else 0
+        a[...] = np.roll(a, 1) if a.ndim == 1 and not np.array_equal(a, np.roll(a, 1)) else 0  # not a relabelling of the same partition
     got = outcome(lambda _d: dask.compute(lazy)[0], da)
     R.count("present_late_mutation_probes")
     if not same(got, ref):
